@@ -92,6 +92,17 @@ class Oracle:
 
     def finish(self, w: ctl.World) -> None:
         proc = w.proc
+        if proc.has_terminated() and proc.paused:
+            # a pause requested while the last step was in flight took effect together with the final transition;
+            # "each run is completed by a final play": play() always leaves the process un-paused
+            rec = w.call('play', origin='closing')
+            if rec['raised'] is not None or rec['ret'] != ('value', True) or proc.paused:
+                w.violate('c:play-not-playing', features(w, rec, ret=str(rec['ret']), terminated=True),
+                          f"play() on the terminated but still paused process returned {rec['ret']}, paused afterwards={proc.paused}")
+            elif 'status_expected' in rec and rec.get('status_after') != rec['status_expected'] \
+                    and proc.state == ProcessState.FINISHED:
+                w.violate('e:status-not-restored', features(w, rec, terminated=True),
+                          f"status {rec.get('status_after')!r} after play, {rec['status_expected']!r} before pause")
         any_pause = False
         for rec in w.calls:
             if rec['op'] in ('pause', 'play'):
